@@ -275,11 +275,9 @@ def cases(tier):
                   ("field_contains(r, ['zz'], ['a'])", "field_contains"), ("field_equals(r, ['zz', 'zq'], ['a'])", "field_equals"),
                   ("field_regex(r, ['zz'], '.*')", "field_regex"), ("field_contains(r, [], ['a'])", "field_contains")):
         yield {"kind": "helper", "helper": hn, "expr": e, "must_be_false": True}
-    L = 4
+    L = 5 if tier == "thorough" else 4
     for k in range(1, L + 1):
         for seq in itertools.product("MNOF", repeat=k):
-            if tier != "thorough" and k == 4 and seq[0] in "NF":
-                continue  # quick: half of the length-4 sequences; thorough: all
             for op in OPS:
                 yield {"kind": "stream", "seq": list(seq), "op": op}
             if k <= 3:
@@ -290,8 +288,6 @@ def cases(tier):
 def main(tier, seed, workers=None):
     run = Run(PROP, "exploration", tier, seed, RULE)
     run.assumptions = ["the comparison node itself must be False: contexts are judged against Python's evaluation with the comparison replaced by False"]
-    if tier != "thorough":
-        run.cap("quick tier enumerates half of the length-4 stream sequences (all of length <=3); the expression grammar is complete in both tiers")
     the_record()
     explore(run, cases(tier), run_case, workers, chunk=64)
     return run.finish(lambda case: [v[0] for v in run_case(case)["viol"]])
